@@ -729,7 +729,7 @@ class POptions(PSort):
 
 class Loop:
     def __init__(self, invariant=(), variant=None, decl=None, index=None, iter_ensures=(), havoc_fields=(),
-                 unroll=False, yields_each_iteration=False, hints=()):
+                 unroll=False, yields_each_iteration=False, hints=(), entry_ghosts=None):
         self.invariant = list(invariant)
         self.variant = variant
         self.decl = decl or {}
@@ -738,6 +738,7 @@ class Loop:
         self.havoc_fields = list(havoc_fields)   # e.g. 'substrate.pos'
         self.unroll = unroll
         self.hints = list(hints)     # spec-lemma instances, proved standalone, assumed at the end of the body
+        self.entry_ghosts = dict(entry_ghosts or {})    # ghost name -> expression evaluated when the loop is entered
         self.yields_each_iteration = yields_each_iteration   # progress: an iteration that loops back yielded
 
 
@@ -1379,6 +1380,8 @@ class Executor:
         if spec.unroll:
             return self.unroll_while(s, lid)
         pre = '%s#loop%d' % (self.c.id, lid)
+        for gname, gexpr in spec.entry_ghosts.items():
+            self.env[gname] = self.spec_val(gexpr, self.env)      # ghost: never assigned by the code, so never havocked
         entry = self.snapshot(self.env)          # loop_entry(x): value of x when this loop was entered
         self._loop_entry = entry
         self.vc(pre + '.init', self.inv(spec, self.env))
